@@ -240,8 +240,7 @@ pub fn run(tier: &str, only: Option<String>) -> i32 {
             }
         }
     }
-    let stats = par_items(&items, Some(120_000), &|it: &Item| {
-        println!("VIOLATION property=C11 replay=/verif/replays/C11-hang.json");
+    let stats = par_items(&items, Some(bridge::rt::hang_limit()), &|it: &Item| {
         println!("  hang in shard {:?} {:?}->{:?}", it.range, it.sink, it.src);
     }, &|it: &Item, st: &mut Stats| run_item(it, st));
     run.stats = stats;
